@@ -74,6 +74,7 @@ pub fn validate(e: &Expression, opts: &RunOptions, mk_records: &mut dyn FnMut(i1
                     PolicyError::Shape(_) => "shape",
                     PolicyError::Eval(ev) => match ev {
                         crate::eval::EvalError::Unbound(_) => "unbound",
+                        crate::eval::EvalError::Unmodelled(_) => "model-lacks",
                         crate::eval::EvalError::Format(_) => "format-error",
                         crate::eval::EvalError::Deadlock(_) => "deadlock",
                         _ => "runtime-error",
